@@ -48,7 +48,7 @@ def fmt_headers(hs):
         return '-'
     out = []
     for h in hs:
-        ni = getattr(h, 'indexable', True) is False
+        ni = (getattr(h, 'indexable', True) is False) or (type(h) is tuple and len(h) > 2 and bool(h[2]))
         out.append('%s:%s:%s' % (fmt_hstr(h[0]), fmt_hstr(h[1]), 'N' if ni else 'I'))
     return ','.join(out) if out else '.'
 
